@@ -679,7 +679,7 @@ impl Prop for C03 {
         if !mixed {
             add_probes(&mut spec, avf, &mut rng);
         }
-        let chunk = if rng.chance(1, 4) { Chunking::draw(&mut rng) } else { Chunking::NONE };
+        let chunk = if rng.chance(1, 4) { Chunking::draw_for_generated(&mut rng) } else { Chunking::NONE };
         let case = Case { spec, chunk, mixed };
         stats.inc("runs");
         stats.inc(&format!(
